@@ -32,10 +32,10 @@ FocusOne(m, t, f, fs, fl) ==
     [sc  |-> Sc(m, {1, 2}, t, 0, {}, TRUE, {}, FALSE, {}),
      srv |-> [ns \in NS |-> IF ns = f THEN fs ELSE IF ns = 1 THEN Honest("v2") ELSE Honest("v1")],
      loc |-> [ns \in NS |-> LocOf(IF m = "clone" THEN NoSig ELSE IF ns = f THEN fl ELSE V("v1"))]]
-FocusSpace ==
-    {FocusOne(q[1], q[2], q[3], q[4], q[5]) :
-        q \in {p \in {"clone", "pull"} \X {1, 2} \X {2, 3} \X FocusSrv \X FocusLoc :
-                  p[1] = "clone" => p[5] = NoSig}}
+Use(x) == sc = x.sc /\ srv = x.srv /\ loc0 = x.loc
+FocusInit ==
+    \E m \in {"clone", "pull"}, t \in {1, 2}, f \in {2, 3}, fs \in FocusSrv, fl \in FocusLoc :
+        (m = "clone" => fl = NoSig) /\ Use(FocusOne(m, t, f, fs, fl))
 
 \* Family "refsat" (C01): pull with announced refs_at for the focus namespace (and optionally
 \* for namespace 1): announced commit x what the peer advertises by now x local state x the
@@ -48,21 +48,21 @@ RefsAtOne(f, av, fs, fl, bl, lo, both) ==
                 {[ns |-> f, ver |-> av]} \cup (IF both THEN {[ns |-> 1, ver |-> "v2"]} ELSE {})),
      srv |-> [ns \in NS |-> IF ns = f THEN fs ELSE IF ns = 1 THEN Honest("v2") ELSE Honest("v1")],
      loc |-> [ns \in NS |-> LocOf(IF ns = f THEN fl ELSE V("v1"))]]
-RefsAtSpace ==
-    {RefsAtOne(q[1], q[2], q[3], q[4], q[5], q[6], q[7]) :
-        q \in {2, 3} \X Vers \X RefsAtSrv \X FocusLoc \X {{}, {2}, {3}} \X {0, 2, 3} \X BOOLEAN}
+RefsAtInit ==
+    \E f \in {2, 3}, av \in Vers, fs \in RefsAtSrv, fl \in FocusLoc, bl \in {{}, {2}, {3}},
+       lo \in {0, 2, 3}, both \in BOOLEAN :
+        Use(RefsAtOne(f, av, fs, fl, bl, lo, both))
 
 \* Family "scope" (C01): followed scope, block list, own namespace -- who is asked for at all.
 ScopeOne(m, fo, bl, lo, s3, l3) ==
     [sc  |-> Sc(m, {1}, 1, lo, bl, FALSE, fo, FALSE, {}),
      srv |-> [ns \in NS |-> IF ns = 3 THEN s3 ELSE Honest("v2")],
      loc |-> [ns \in NS |-> LocOf(IF m = "clone" THEN NoSig ELSE IF ns = 3 THEN l3 ELSE V("v1"))]]
-ScopeSpace ==
-    {ScopeOne(q[1], q[2], q[3], q[4], q[5], q[6]) :
-        q \in {p \in {"clone", "pull"} \X (SUBSET {2, 3}) \X (SUBSET {1, 2, 3}) \X {0, 1, 2}
-                     \X {Honest("v2"), Absent, [sig |-> [ver |-> "v2", fl |-> "forged"], rid |-> "i2", junk |-> "none"]}
-                     \X {NoSig, V("v1")} :
-                  p[1] = "clone" => p[6] = NoSig}}
+ScopeInit ==
+    \E m \in {"clone", "pull"}, fo \in SUBSET {2, 3}, bl \in SUBSET {1, 2, 3}, lo \in {0, 1, 2},
+       s3 \in {Honest("v2"), Absent, [sig |-> [ver |-> "v2", fl |-> "forged"], rid |-> "i2", junk |-> "none"]},
+       l3 \in {NoSig, V("v1")} :
+        (m = "clone" => l3 = NoSig) /\ Use(ScopeOne(m, fo, bl, lo, s3, l3))
 
 \* Family "delegates" (C02): delegates 1..k, every threshold, the local node a delegate / a
 \* non-delegate namespace / not present, every combination of per-delegate offered states:
@@ -87,29 +87,25 @@ DelOne(m, k, t, lo, sts) ==
     [sc  |-> Sc(m, 1..k, t, lo, {}, TRUE, {}, FALSE, {}),
      srv |-> [ns \in NS |-> IF ns <= k THEN DelSrv(sts[ns]) ELSE Honest("v1")],
      loc |-> [ns \in NS |-> LocOf(IF m = "clone" THEN NoSig ELSE IF ns <= k THEN DelLoc(sts[ns]) ELSE NoSig)]]
-DelSpaceK(k) ==
-    {DelOne(q[1], k, q[2], q[3], q[4]) :
-        q \in {"clone", "pull"} \X (1..k) \X (0..N) \X [1..k -> DelStates]}
-    \* (for a clone nothing is stored: states with the same offer collapse into one scenario)
-DelSpace == UNION {DelSpaceK(k) : k \in DelCount}
+\* (for a clone nothing is stored: states with the same offer collapse into one scenario)
+DelInit ==
+    \E k \in DelCount : \E m \in {"clone", "pull"}, t \in 1..k, lo \in 0..N, sts \in [1..k -> DelStates] :
+        Use(DelOne(m, k, t, lo, sts))
 
 \* Family "blockdel" (C02): a blocked delegate does not count, and is not written.
 BlockDelOne(t, bl, sts) ==
     [sc  |-> Sc("pull", {1, 2}, t, 0, bl, TRUE, {}, FALSE, {}),
      srv |-> [ns \in NS |-> IF ns <= 2 THEN DelSrv(sts[ns]) ELSE Honest("v1")],
      loc |-> [ns \in NS |-> LocOf(IF ns <= 2 THEN DelLoc(sts[ns]) ELSE NoSig)]]
-BlockDelSpace ==
-    {BlockDelOne(q[1], q[2], q[3]) : q \in {1, 2} \X {{1}, {2}, {3}} \X [1..2 -> DelStates]}
-
-Space ==
-    (IF "focus" \in Family THEN FocusSpace ELSE {})
-    \cup (IF "refsat" \in Family THEN RefsAtSpace ELSE {})
-    \cup (IF "scope" \in Family THEN ScopeSpace ELSE {})
-    \cup (IF "delegates" \in Family THEN DelSpace ELSE {})
-    \cup (IF "blockdel" \in Family THEN BlockDelSpace ELSE {})
+BlockDelInit ==
+    \E t \in {1, 2}, bl \in {{1}, {2}, {3}}, sts \in [1..2 -> DelStates] : Use(BlockDelOne(t, bl, sts))
 
 MCInit ==
-    /\ \E x \in Space : sc = x.sc /\ srv = x.srv /\ loc0 = x.loc
+    /\ \/ ("focus" \in Family /\ FocusInit)
+       \/ ("refsat" \in Family /\ RefsAtInit)
+       \/ ("scope" \in Family /\ ScopeInit)
+       \/ ("delegates" \in Family /\ DelInit)
+       \/ ("blockdel" \in Family /\ BlockDelInit)
     /\ Start
 
 \* Every scenario of the families is a legal initial state of the unbounded module.
